@@ -49,12 +49,22 @@ def sky_roundtrip(ctx, rnd, s, win, wlo, whi, idx, wcs_pool):
     if len(bad):
         ctx.violation(f'C08|sky-member|{kind_sig(s)}', f'{len(bad)} positions change membership after pixel->sky->pixel', case)
         return
-    if idx % 4 == 0:
+    if idx % 4 == 0 or s['k'] != 'compound':
         sc = w.pixel_to_world(xs, ys)
         out2 = np.asarray(sky.contains(sc, w)).astype(int)
         bad = np.nonzero(care & (out2 != model))[0]
         if len(bad):
             ctx.violation(f'C08|sky-contains|{kind_sig(s)}', f'{len(bad)} sky positions answered differently by the sky compound', case)
+            return
+        # the same sky region with sizes / angles handed over in other units answers alike
+        try:
+            out3 = np.asarray(wcsutil.redescribe_units(sky, idx // 4).contains(sc, w)).astype(int)
+        except Exception as ex:  # noqa
+            ctx.violation(f'C08|sky-units|{kind_sig(s)}|{type(ex).__name__}', f'the sky region rebuilt with other units raised {ex!r}', case)
+            return
+        bad = np.nonzero(care & (out3 != model))[0]
+        if len(bad):
+            ctx.violation(f'C08|sky-units|{kind_sig(s)}', f'{len(bad)} sky positions answered differently once the sizes/angles of the sky region are given in other units', case)
 
 
 def via(s):
@@ -103,8 +113,7 @@ def run(ctx):
         for idx, st in enumerate(parse_dump(res.dump_path, only='pc = "ret"')):
             c01.replay_state(ctx, rnd, st['shape'], st['res']['win'], -12, 12, idx, pid='C08')
             annulus_area(ctx, st['shape'])
-            if idx % 5 == 0:
-                sky_roundtrip(ctx, rnd, st['shape'], st['res']['win'], -12, 12, idx, wcs_pool)
+            sky_roundtrip(ctx, rnd, st['shape'], st['res']['win'], -12, 12, idx, wcs_pool)
             n += 1
         ctx.traces += n
         ctx.note('replayed_annuli', n)
